@@ -85,11 +85,14 @@ fn zone_field(rng: &mut Rng, v: &ValueFacts, info: &mut PatInfo) -> Field {
     Field { text: run(c, w), needs_delim: matches!(w, 1 | 4 | 5), zone: true }
 }
 
-const DELIMS: [&str; 28] = [
+const DELIMS: [&str; 46] = [
     " ", "/", "-", ":", ".", ",", "T", "_", " ", "-", "é", "日", "'at'", "''", "' o''clock '", "'日付'",
     // white space / line ends (also as the very last thing of a pattern), Unicode numerics that are not ASCII
     // digits (a reader that asks char::is_numeric instead of is_ascii_digit swallows them into a number)
     "\n", "\r\n", "\t", "\u{a0}", "½", "②", "Ⅳ", "'½'", "'\n'", " \n", "|", "'\r'",
+    // two literal tokens of different kinds side by side (plain then quoted, quoted then plain), quoted text that
+    // starts / ends with white space, and quoted text that continues an English name ("Sun" + "day", "Sep" + "tember")
+    " ' at '", " 'T'", "' 'T", "'  '", "- ' '", "' ' ", "'day'", "'nesday'", "'urday'", "'uary'", "'tember'", "'ober'", "'ust'", "'M'", "'.m.'", "'night'", "'st'", "'th'",
 ];
 const ZONE_SAFE_DELIMS: [&str; 14] = [" ", "/", ".", ",", "T", "_", "é", "'at'", "''", "\n", "\t", "½", "②", "|"];
 
